@@ -95,6 +95,27 @@ def rule_init(R):
              "the quota at (re)connect must depend on the publishes still in flight — retained PUBLISH packets and "
              "exchanges waiting for PUBCOMP are retransmitted and occupy the broker's window (the stored value reads %s)"
              % sorted(x[1] for x in touched & need), where=span)
+    # quota + publishes in flight = window: the stored quota is the stored window minus what is already in flight
+    if len(ms) == 1 and len(qs) == 1:
+        wv, qv = ms[0][2], peel(qs[0][2])
+        okw = False
+        found = show(qv)
+        sub = None
+        if is_call(qv, "saturating_sub", "wrapping_sub", "checked_sub") and len(qv[3]) == 2:
+            sub = (qv[3][0], qv[3][1])
+        elif qv[0] == "bin" and qv[1].startswith("Sub"):
+            sub = (qv[2], qv[3])
+        elif qv[0] == "field" and qv[1][0] == "bin" and qv[1][1].startswith("Sub"):
+            sub = (qv[1][2], qv[1][3])
+        if sub is not None:
+            w_alts = sorted(set(show(peel(a)) for a in phi_alts(peel(sub[0]))))
+            m_alts = sorted(set(show(peel(a)) for a in phi_alts(peel(wv))))
+            infl = peel(sub[1])
+            okw = w_alts == m_alts and infl[0] == "call" and infl[2] in f.bodies and \
+                {(OUTBOUND, "retained"), (OUTBOUND, "pending_release")} <= set(f.fields_touched(infl[2]))
+        R.ob("resume/window-minus-inflight", okw,
+             "the quota stored at (re)connect is the window stored beside it minus the publishes still in flight "
+             "(quota + in-flight = min(Receive Maximum, capacity)); found %s" % found, where=qs[0][3])
     # Receive Maximum 0 is rejected
     ok0 = False
     for cb in f.children(hcode):
@@ -143,6 +164,22 @@ def rule_dec(R):
              "once the publish is enqueued the quota is taken before the next await point and before any return "
              "(cancellation cannot separate the two)%s" % ("" if not ys and not rets else ": %s reachable first"
                                                             % code.line((ys + rets)[0])), where=span)
+
+
+def clause_quota_after_enqueue(R, key):
+    """an in-flight slot (one unit of send quota) is taken only for a publish that was actually enqueued: every error exit
+    of publish before the enqueue leaves the quota untouched, otherwise refused publishes leak slots until nothing can
+    be published any more"""
+    f = R.f
+    P = ops.pipeline(f, "publish")
+    code = P.code
+    ret = ops.first(P.retains, "retain", "publish")
+    conts, brks = ops.cont_edges(code, ret)
+    ok = bool(P.quota_stores) and bool(conts)
+    for (bb, j, v, span) in P.quota_stores:
+        ok = ok and code.must_pass([0], [bb], via_edges=conts)[0]
+    R.ob(key, ok, "publish takes its unit of send quota only after the packet was enqueued successfully (no error exit between "
+         "taking the slot and the enqueue can leak it)", where=P.quota_stores[0][3] if P.quota_stores else P.fn.span)
 
 
 def rule_gate(R):
